@@ -290,7 +290,16 @@ func (sc *SpecCtx) index(x *SExpr) Val {
 		p := sc.st.sliceElemPtr(base, idx.C[0])
 		return sc.load(p)
 	case *types.Map:
-		return sc.mapGet(t, base.C[0], sc.st.mapKeyTerm(t, idx))
+		// Go semantics: the zero value for an absent key
+		kt := sc.st.mapKeyTerm(t, idx)
+		raw := sc.mapGet(t, base.C[0], kt)
+		has := sc.mapHas(t, base.C[0], kt)
+		z := e.zero(t.Elem())
+		out := Val{T: raw.T}
+		for i := range raw.C {
+			out.C = append(out.C, ite(has, raw.C[i], z.C[i]))
+		}
+		return out
 	case *types.Pointer:
 		if at, ok := t.Elem().Underlying().(*types.Array); ok {
 			p := sc.st.asPtr(base)
